@@ -1023,7 +1023,7 @@ func (a *zzfApp) AfterTransactionsExecute(req *labi.AfterTransactionsExecuteRequ
 		for i, v := range a.vals {
 			next[i] = &labi.Validator{Address: v.Address, BFTWeight: 2, GeneratorKey: v.GeneratorKey, BLSKey: v.BLSKey}
 		}
-		res.PreCommitThreshold, res.CertificateThreshold, res.NextValidators = 3, 3, next
+		res.PreCommitThreshold, res.CertificateThreshold, res.NextValidators = 3, 4, next // (thresholds differ: an exchange of the two is visible in validatorsHash)
 	}
 	return res, nil
 }
